@@ -588,6 +588,11 @@ def rule_com_variations(ctx):
 
     def operand_class(txt, lv):
         """particles[(i+idx)].fld -> (class of idx or 'real', fld)"""
+        # a pointer local let-inlined by the summand reader: (&particles[(i+index)]).x
+        txt = txt.replace('&', '')
+        mp = re.match(r'^\((.*)\)\.(\w+)$', txt)
+        if mp and mp.group(1).count('(') == mp.group(1).count(')'):
+            txt = mp.group(1) + '.' + mp.group(2)
         ma = re.match(r'^\(?\*?(\w+)\)?\.(\w+)$', txt)
         if ma and ma.group(1) in aliases:
             txt = aliases[ma.group(1)] + '.' + ma.group(2)
@@ -761,7 +766,7 @@ def rule_unit_quaternions(ctx):
                                'the quaternion returned here (%s) is not known to have unit norm: it is built from a vector that was not normalised (the cross product of a unit vector with a basis vector has length sqrt(1 - a_k^2)); applying it rescales vectors' % render(node['inner'][0])[:60])
                 else:
                     samples.append('src/rotations.c:%s returns a unit quaternion' % line_of(node))
-    ctx.covered('R20.9', 'returns of the branching rotation constructors are unit quaternions (unit typestate: normalize, basis literals, reduced from-to of unit vectors, products)', n, floor=4, samples=samples[:5])
+    ctx.covered('R20.9', 'returns of the branching rotation constructors are unit quaternions (unit typestate: normalize, basis literals, reduced from-to of unit vectors, products)', n, floor=2, samples=samples[:5])
 
 
 def rule_orbital_inverse(ctx):
@@ -796,10 +801,16 @@ def rule_orbital_inverse(ctx):
     def _cls(atom):
         """'Z' / 'P' for an atom that says inc is away from 0 / from pi, 'z' / 'p' for its negation, '' otherwise"""
         a_ = atom.replace(' ', '')
-        neg = a_.startswith('!')
-        core = a_[1:] if neg else a_
-        while core.startswith('(') and core.endswith(')'):
-            core = core[1:-1]
+        neg = False
+        core = a_
+        while True:
+            if core.startswith('!'):
+                neg = not neg
+                core = core[1:]
+            elif core.startswith('(') and core.endswith(')') and core.count('(') == core.count(')'):
+                core = core[1:-1]
+            else:
+                break
         if '&&' in core or '||' in core:
             return ''
         if 'fabs' in core and 'inc' in core and '>' in core:
@@ -821,7 +832,7 @@ def rule_orbital_inverse(ctx):
             raw = pc.get(id(e), [])
             kinds = [_cls(a_) for a_ in raw]
             both = any(('fabs' in a_ and a_.count('fabs') >= 2 and '&&' in a_ and not a_.replace(' ', '').startswith('!')) for a_ in raw)
-            if both:
+            if both or ('Z' in kinds and 'P' in kinds):
                 br = 'general'
             elif 'z' in kinds:
                 br = 'inc~0'
